@@ -52,6 +52,12 @@ def step (st : St) : List String → St × String
     match a.toNat?, k.toNat?, v.toNat? with
     | some a, some k, some v => ({ db := setState st.db a k v }, "ok")
     | _, _, _ => (st, "bad-op")
+  | ["prestate", a, k, v] =>
+    -- storage held by the keeper before the transaction (only meaningful before the object is loaded)
+    match a.toNat?, k.toNat?, v.toNat? with
+    | some a, some k, some v =>
+      ({ db := { st.db with k := { st.db.k with store := fun a' k' => if a' = a ∧ k' = k then v else st.db.k.store a' k' } } }, "ok")
+    | _, _, _ => (st, "bad-op")
   | ["addrefund", g] => (match g.toNat? with | some g => ({ db := addRefund st.db g }, "ok") | none => (st, "bad-op"))
   | ["subrefund", g] =>
     match g.toNat? with
@@ -97,6 +103,7 @@ def step (st : St) : List String → St × String
   | "ptx" :: rest => (st, Haqq.Driver.Script.step rest)
   | "dtx" :: _ => (st, "skip")
   | "psup" :: _ => (st, "skip")
+  | "sd3" :: _ => (st, "skip")
   | ["noop"] => (st, "ok")
   | ["dump"] => ({ db := loadAll st.db }, dump st.db)
   | _ => (st, "bad-op")
